@@ -541,6 +541,8 @@ def paths_cell(cell):
                     try:
                         os.chdir(root / "json")
                         target = {"str": str(root / "json" / name), "Path": root / "json" / name, "relative": name}[style]
+                        if style == "Path":
+                            _plant_decoys(root / "json" / name, root / "json" / DECOYS[0], other)
                         with quiet():
                             live.create_checkpoint(target)
                         if style == "relative":
@@ -578,6 +580,27 @@ def paths_cell(cell):
     res["states"] = res["evaluations"]
     res["outcomes"] = sorted(res["outcomes"])
     return res
+
+
+def _plant_decoys(folder, donor, other):
+    """Files that do not belong to the checkpoint format but may well lie in a long-lived folder: back-ups, compressed siblings,
+    the sampler list that releases before 0.3 stored, a checkpoint of the OTHER back-end. All are valid files of another run."""
+    import gzip
+    import pickle
+
+    from black_it.utils import sqlite3_checkpointing as sq
+
+    folder.mkdir(parents=True, exist_ok=True)
+    for f in donor.iterdir():
+        if f.is_file():
+            data = f.read_bytes()
+            (folder / (f.name + ".bak")).write_bytes(data)
+            (folder / (f.name + ".tmp")).write_bytes(data)
+            with gzip.open(folder / (f.name + ".gz"), "wb") as z:
+                z.write(data)
+    (folder / "samplers_pickled.pickle").write_bytes(pickle.dumps(list(other.scheduler.samplers)[::-1]))
+    with quiet():
+        sq.save_calibrator_state(folder, *_sq_comps(other))
 
 
 def _sq_comps(live):
